@@ -175,6 +175,7 @@ def _check(prop, fam, tier, seed, replay, scr, t0):
     known_hit = []
     seen = set()
     confirmed_traces = {}
+    unreproduced = []
     for v in viols:
         clause, tr, i = v[1], v[2], v[3]
         ln = line_at.get((tr, i), {})
@@ -202,8 +203,14 @@ def _check(prop, fam, tier, seed, replay, scr, t0):
             confirmed_traces[tr] = (rp, ok2)
         rp, ok = confirmed_traces[tr]
         if not ok:
-            log("[%s] violation in %s step %s did not reproduce; inconclusive" % (prop, tr, i))
-            raise Broken("unreproduced violation %s %s" % (tr, clause))
+            # a violation that does not reproduce is never reported; the run is inconclusive (exit 2) unless
+            # another violation of this run does reproduce
+            if tr not in unreproduced:
+                log("[%s] violation in %s step %s (%s) did not reproduce" % (prop, tr, i, clause))
+                unreproduced.append(tr)
+            if len(unreproduced) > 6:
+                break
+            continue
         if (tr, clause) in seen:
             continue
         seen.add((tr, clause))
@@ -253,4 +260,6 @@ def _check(prop, fam, tier, seed, replay, scr, t0):
         reported += fam["post"](prop, tier, int(seed), scr, coverage, known)
     write_evidence(prop, tier, seed, fam.get("level", "model_checking"), coverage, time.time() - t0, reported,
                    fam.get("assumptions", []))
+    if not reported and unreproduced:
+        raise Broken("violations seen in %s did not reproduce in %d attempts each: inconclusive" % (unreproduced[:4], fam.get("confirm_attempts", 1)))
     return 1 if reported else 0
